@@ -518,4 +518,56 @@ theorem C08_full_rollback_false : ¬ C08_full_rollback := by
   revert this
   decide
 
+/-! ## RevokeCommissioning / OpenCommissioningWindow and the fail-safe -/
+
+/-- while a commissioning window is open, a fail-safe cannot be armed over a CASE session -/
+theorem case_arm_refused_while_window_open (cfg : Cfg) (n : Node) (sid s secs : Nat) (mode : Mode)
+    (hidle : n.fs = none) (hw : n.window.isSome = true) (hc : mode.isCase = true) (h0 : secs ≠ 0) :
+    sessOp cfg n sid mode (.arm s secs) = (n, .err "Busy") := by
+  simp [sessOp, h0, hidle, hw, hc]
+
+/-- an expiry that reports no error leaves the fail-safe idle -/
+theorem expire_ok_idle (cfg : Cfg) (n : Node) (exp : Option Nat) (h : (expire cfg n exp).2 = none) :
+    (expire cfg n exp).1.fs = none := by
+  unfold expire at h ⊢
+  cases hfs : n.fs with
+  | none => simp only []; exact hfs
+  | some a =>
+    simp only [hfs] at h ⊢
+    unfold expireAndPurge at h ⊢
+    cases hr : rollbackFabrics cfg n a with
+    | error e =>
+      have : expireArmed cfg n a exp = (n, some e, none) := by unfold expireArmed; simp [hr]
+      simp [this] at h
+    | ok fs =>
+      have hfsn : (expireArmed cfg n a exp).1.fs = none := by unfold expireArmed; simp [hr]
+      rcases hres : expireArmed cfg n a exp with ⟨n1, e, r⟩
+      rw [hres] at h hfsn
+      simp only at hfsn
+      cases e with
+      | some e => simp at h
+      | none =>
+        cases r with
+        | none => exact hfsn
+        | some idx =>
+          simp only [] at h ⊢
+          have p3 := (purgeResum_spec n1 idx).2.2.1
+          rcases hp : purgeResum n1 idx with ⟨n2, b⟩
+          rw [hp] at p3 h
+          cases b with
+          | true => simp only []; exact p3.trans hfsn
+          | false => simp at h
+
+/-- an acknowledged RevokeCommissioning ends the fail-safe (rolled back) and closes the window -/
+theorem revoke_ends_failsafe (cfg : Cfg) (n : Node) (sid s : Nat) (mode : Mode)
+    (hack : (sessOp cfg n sid mode (.revoke s)).2 = .ok) :
+    (sessOp cfg n sid mode (.revoke s)).1.fs = none ∧ (sessOp cfg n sid mode (.revoke s)).1.window = none := by
+  simp only [sessOp] at hack ⊢
+  have h1 := expire_ok_idle cfg n (some sid)
+  rcases hr : expire cfg n (some sid) with ⟨n1, e⟩
+  rw [hr] at hack h1
+  cases e with
+  | some e => simp at hack
+  | none => exact ⟨h1 rfl, rfl⟩
+
 end C08
